@@ -60,8 +60,11 @@ class Box:
         self.clean()
 
     def clean(self):
-        for f in self.root.iterdir():
-            f.unlink()
+        for f in list(self.root.iterdir()):
+            try:
+                f.unlink()
+            except FileNotFoundError:
+                pass
 
     def compute_truth(self):
         from tola.fasta.index import FastaIndex, index_fasta_file
@@ -165,6 +168,14 @@ def replay(sc):
         except S.SchedTimeout:
             hang = 1
     finally:
+        # threads that are still parked at a scheduling point are abandoned for good: any further operation of theirs raises
+        with s.cv:
+            for q in list(s.pending):
+                s.crashed.add(q)
+            s.turn = "__all__"
+            s.cv.notify_all()
+        for q, th in list(s.threads.items()):
+            th.join(timeout=2.0)
         s.uninstall()
     return {"tid": sc["tid"], "cls": sc["cls"], "tokens": sc["tokens"], "events": s.events, "hang": hang, "flushy": 1 if s.flushy else 0,
             "truth": [box.truth[1], box.truth[2]]}
